@@ -250,7 +250,20 @@ func genPQCase(r *rand.Rand, gi int) pqCase {
 		rs, R := rng()
 		pc.Expr, pc.Shape, pc.Sels = fmt.Sprintf("sum by (job) (rate(m%s))", rs), "aggregation-over-range-func", []selInfo{{Range: R, Func: "rate"}}
 	default:
-		switch r.Intn(3) {
+		switch r.Intn(4) {
+		case 3:
+			// two selectors whose windows lie on different UTC days: n exists (index rows and samples) two days
+			// before the window of m only
+			const twoDays = int64(2 * 86400 * 1000)
+			for _, s := range pc.Series {
+				if s.Labels["__name__"] == "n" {
+					s.Days = []int32{baseDay - 2}
+					for i := range s.Samples {
+						s.Samples[i].Ms -= twoDays
+					}
+				}
+			}
+			pc.Expr, pc.Shape, pc.Sels = pick(r, []string{"m or n offset 2d", "n offset 2d or m", "m + on(job, instance) n offset 2d"}), "selectors-on-different-days", []selInfo{{}, {Offset: twoDays}}
 		case 0:
 			rs, R := rng()
 			f := pick(r, []string{"quantile_over_time(0.5, %s%s)", "stddev_over_time(%s%s)"})
